@@ -9,6 +9,15 @@ ODO = [("QuartzModel.Proofs.Odometer", t) for t in ["Odo.findForward_spec", "Odo
 SCHEDFACTS = [("QuartzModel.Theorems.SchedFacts", "Sched." + t) for t in ["validate_branches", "misfire_offer_nonblocking", "step_order", "classify_spec"]]
 
 THEOREMS = {
+    "C05": [("QuartzModel.Theorems.Facts", "Facts.missing_none")] + [("QuartzModel.Theorems.C05", "Wakeup." + t) for t in [
+        "C05_facts_wf", "C05_invariant", "C05_parked_correct", "C05_never_lost", "C05_token_rereads", "C05_send_never_blocks", "C05_holds",
+        "C05_lost_unbuffered", "C05_lost_without_send", "C05_lost_send_before", "C05_lost_without_reread", "C05_blocking_send_deadlocks"]] +
+           [("QuartzModel.Proofs.WakeupLemmas", "Wakeup.inv_step"), ("QuartzModel.Proofs.WakeupLemmas", "Wakeup.inv_run")],
+    "C15": [("QuartzModel.Theorems.Facts", "Facts.missing_none")] + [("QuartzModel.Theorems.C15", "Faults." + t) for t in [
+        "C15_facts_wf", "C15_facts_api", "C15_facts_dispatch", "C15_backoff_step", "C15_backoff", "C15_holds", "C15_backoff_fails_without_flag",
+        "C15_interrupts_postpone_recovery", "C15_api_propagates", "C15_api_nil_only_if_all_ok", "C15_dispatch_after_pop", "C15_one_push_per_pop",
+        "C15_iter_calls", "C15_no_double_fire", "C15_deadline_not_postponed", "C15_recovers"]] +
+           [("QuartzModel.Proofs.FaultsLemmas", "Faults.no_tick_before"), ("QuartzModel.Proofs.FaultsLemmas", "Faults.runQ_nodup")],
     "C16": [("QuartzModel.Theorems.Facts", "Facts.missing_none")] + [("QuartzModel.Theorems.C16", "Jobs." + t) for t in [
         "C16_facts_tests", "C16_facts_function", "C16_facts_shell", "C16_facts_curl", "C16_facts_accessors",
         "C16_function_status_iff", "C16_shell_status_iff", "C16_status_total", "C16_shell_status_exit", "C16_curl_status_iff",
